@@ -81,12 +81,15 @@ fn scenario<C: MlsConfig>(rng: &mut Rng, mk: Mk<C>, out: &mut Out) {
             }
         }
     };
+    // epoch at which each member last wrote its state (retention trimming happens at write)
+    let mut last_write: Vec<Option<u64>> = vec![None; n + 1];
     for _ in 0..rng.range(1, 4) {
         advance(&mut w);
         // some members persist (retention trimming happens at write)
         for i in 0..n {
             if w.members[i].group.is_some() && rng.chance(1, 2) {
                 w.with_group(i, |g| g.write_to_storage());
+                last_write[i] = Some(w.group(i).current_epoch());
             }
         }
     }
@@ -95,11 +98,12 @@ fn scenario<C: MlsConfig>(rng: &mut Rng, mk: Mk<C>, out: &mut Out) {
         out.fails.push("setup late joiner".into());
         return;
     }
-    for _ in 0..rng.range(0, 2) {
+    for _ in 0..rng.range(0, 3) {
         advance(&mut w);
         for i in 0..n {
-            if w.members[i].group.is_some() && rng.chance(1, 2) {
+            if w.members[i].group.is_some() && rng.chance(1, 3) {
                 w.with_group(i, |g| g.write_to_storage());
+                last_write[i] = Some(w.group(i).current_epoch());
             }
         }
     }
@@ -137,6 +141,13 @@ fn scenario<C: MlsConfig>(rng: &mut Rng, mk: Mk<C>, out: &mut Out) {
         }
     }
     out.cover.insert(format!("npsk={npsk}:res={}", res_epochs.len().min(2)));
+    // a past epoch e is available to member i iff i was a member in e and either e was entered since i's last write (still pending)
+    // or it is among the `retention` most recent prior epochs at that write
+    let first_epoch = |i: usize| -> u64 { if i == 0 { 0 } else if i == n - 1 { late_join_epoch } else { 1 } };
+    let available = |w: &World<C>, i: usize, e: u64| -> bool {
+        let r = w.members[i].setup.retention as u64;
+        e >= first_epoch(i) && e < epoch && last_write[i].map(|wr| e + r >= wr).unwrap_or(true)
+    };
     // by-reference for some external PSKs (proposed by member 1), the rest by value
     let mut by_ref_msgs = vec![];
     let mut by_value_ext = vec![];
@@ -179,6 +190,16 @@ fn scenario<C: MlsConfig>(rng: &mut Rng, mk: Mk<C>, out: &mut Out) {
         b.build()
     });
     out.cases += 1;
+    let committer_has_all = res_epochs.iter().all(|e| available(&w, 0, *e));
+    if o.is_some() != committer_has_all {
+        out.fails.push(format!(
+            "committer {} the PSK commit although it {} every referenced past epoch (epochs {res_epochs:?}, now {epoch}, last write {:?}, retention {})",
+            if o.is_some() { "built" } else { "could not build" },
+            if committer_has_all { "retains" } else { "does not retain" },
+            last_write[0],
+            w.members[0].setup.retention
+        ));
+    }
     let Some(o) = o else {
         // the committer itself may no longer retain a referenced epoch: then building fails and nothing changed
         let ch = World::<C>::changed(&before0, &comps(w.group(0)));
@@ -201,6 +222,17 @@ fn scenario<C: MlsConfig>(rng: &mut Rng, mk: Mk<C>, out: &mut Out) {
         let (r, _) = w.with_group(i, |g| g.process_incoming_message(m));
         out.verdicts += 1;
         let name = w.members[i].setup.name.clone();
+        let res_ok = res_epochs.iter().all(|e| available(&w, i, *e));
+        if r.ok() != (ext_ok && res_ok) {
+            out.fails.push(format!(
+                "{name} {} the PSK commit: external PSKs right = {ext_ok}, referenced epochs {res_epochs:?} all retained = {res_ok} (now {epoch}, first epoch {}, last write {:?}, retention {}): {}",
+                if r.ok() { "accepted" } else { "rejected" },
+                first_epoch(i),
+                last_write[i],
+                w.members[i].setup.retention,
+                r.s()
+            ));
+        }
         if r.ok() {
             if !ext_ok {
                 out.fails.push(format!("{name} holds a different / no value for an external PSK but accepted the commit"));
